@@ -144,7 +144,7 @@ class Facts:
             if o is not None and not fd.proto3_optional and o not in seen:
                 seen.add(o)
                 firsts.append(fd)
-        return firsts, [fd for fd in m.field if self.required(fd) and not fd.HasField("oneof_index")]
+        return firsts, [fd for fd in m.field if self.required(fd) and (not fd.HasField("oneof_index") or fd.proto3_optional)]
 
     def has_request_cycle(self, root):
         """a cycle along fields the default request must descend into (required / first oneof member)"""
@@ -758,14 +758,13 @@ def check_present(facts, full, dyn, path=""):
         if not ok:
             if fd.type in (10, 11):
                 key = "required-message-field-unset"
+            elif fd.proto3_optional:
+                key = "required-proto3-optional-unset"      # regression key (fixed by 1704548)
             else:
                 key = "required-field-unset"
             out.append((key, f"required field {path}{fd.name} of {full} is not populated"))
         elif fd.type in (10, 11) and fd.label != 3:
             out += check_present(facts, fd.type_name.lstrip("."), val, path + fd.name + ".")
-    for fd in m.field:      # REQUIRED proto3-optional fields (not covered by `request_fields`, which mirrors `not field.oneof`)
-        if facts.required(fd) and fd.proto3_optional and not dyn.HasField(fd.name):
-            out.append(("required-proto3-optional-unset", f"required optional field {path}{fd.name} of {full} is not populated"))
     seen = set()
     for fd in m.field:
         o = facts.oneof_name(m, fd)
@@ -1343,6 +1342,6 @@ CLAIM = dict(
           "imported client (names, parameters, result type), docstring snippet vs the text between the tags; model-independent oracle."),
     technique="Lean 4 theorems over an executable model + translator bridge + differential T2/T3 with sample execution against loopback servers",
     design="7.14",
-    note=("Jinja rendering of the sample is reached only through T3. request_has_required is partial (scalar/enum fields); the "
-          "message-typed cases are counterexample theorems and known findings. Docstring comparison ignores blank lines."),
+    note=("Jinja rendering of the sample is reached only through T3. A required message-typed field is populated iff its own "
+          "default request is non-empty (theorem + counterexample; known finding). Docstring comparison ignores blank lines."),
 )
